@@ -276,4 +276,224 @@ theorem sim_deleteCore (F B : Nat) (s g : OrSwot) (k ts : Nat) (h : Sim F B s g)
     · simp only [hk, false_and, if_false]
       exact hd k'
 
+theorem sim_tryUpdateMax (F B : Nat) (s g : OrSwot) (src ts : Nat) (h : Sim F B s g) :
+    tryUpdateMax F g src ts = tryUpdateMax F s src ts := by
+  unfold tryUpdateMax
+  rw [h.safe, h.maxs]
+
+/-- Applying one operation to the purging replica and to its ghost keeps them related, provided
+the operation is not below a purged tombstone of its key. -/
+theorem sim_applyOp (F B : Nat) (s g : OrSwot) (so : SrcOp) (h : Sim F B s g)
+    (hl : ∀ d, Map.get g.dead so.op.key = some d → Map.get s.dead so.op.key = none → d ≤ so.op.ts) :
+    Sim F B (applyOp F s so).1 (applyOp F g so).1 := by
+  unfold applyOp insertWithSource deleteWithSource
+  rw [sim_tryUpdateMax F B s g so.src so.op.ts h]
+  cases htv : tryUpdateMax F s so.src so.op.ts with
+  | none => split <;> exact h
+  | some p =>
+    obtain ⟨maxs', safe'⟩ := p
+    have h' : Sim F B { s with maxs := maxs', safe := safe' } { g with maxs := maxs', safe := safe' } :=
+      ⟨h.entries, rfl, rfl, h.dead⟩
+    split
+    · exact sim_deleteCore F B _ _ so.op.key so.op.ts h' hl
+    · exact sim_insertCore F B _ _ so.op.key so.op.ts h' hl
+
+/-- Purging keeps the simulation with the *same* ghost, provided every purged tombstone is old
+enough for the bound. -/
+theorem sim_purge (F B : Nat) (s g : OrSwot) (h : Sim F B s g) (hdisj : Disj g)
+    (hold : ∀ k d, Map.get s.dead k = some d → isBefore s.safe d = true → dts d + F ≤ B) :
+    Sim F B (purgeOldDeletes s).1 g := by
+  obtain ⟨p1, p2, p3, _, p5⟩ := C08.purge_local s
+  refine ⟨by rw [p1]; exact h.entries, by rw [p3]; exact h.maxs, by rw [p2]; exact h.safe, ?_⟩
+  intro k
+  rw [p1]
+  rcases h.dead k with h1 | ⟨h1, h2, d, h3, h4⟩
+  · cases hs : Map.get s.dead k with
+    | none =>
+      left
+      rw [h1, hs]
+      cases hp : Map.get (purgeOldDeletes s).1.dead k with
+      | none => rfl
+      | some d' => have := (p5 k d').1 hp; rw [hs] at this; cases this.1
+    | some d =>
+      cases hb : isBefore s.safe d with
+      | false =>
+        left
+        rw [h1, hs]
+        exact ((p5 k d).2 ⟨hs, hb⟩).symm
+      | true =>
+        right
+        have hpn : Map.get (purgeOldDeletes s).1.dead k = none := by
+          cases hp : Map.get (purgeOldDeletes s).1.dead k with
+          | none => rfl
+          | some d' =>
+            have := (p5 k d').1 hp
+            rw [hs] at this
+            obtain ⟨e1, e2⟩ := this
+            cases e1; rw [hb] at e2; cases e2
+        have hgd : Map.get g.dead k = some d := by rw [h1, hs]
+        have hse : Map.get s.entries k = none := by
+          rw [← h.entries k]
+          rcases hdisj k with hh | hh
+          · exact hh
+          · rw [hgd] at hh; cases hh
+        exact ⟨hpn, hse, d, hgd, hold k d hs hb⟩
+  · right
+    have hpn : Map.get (purgeOldDeletes s).1.dead k = none := by
+      cases hp : Map.get (purgeOldDeletes s).1.dead k with
+      | none => rfl
+      | some d' => have := (p5 k d').1 hp; rw [h1] at this; cases this.1
+    exact ⟨hpn, h2, d, h3, h4⟩
+
+end Datacake.Purge
+
+namespace Datacake.Purge
+open Datacake.Lww Datacake.OrSwot Datacake.Ts Datacake.Map
+
+/-! ### From the cut-off to time
+
+`isBefore safe t` means that the replica has seen, from `t`'s origin on every source, a stamp at
+least one forgiveness period after `t`. -/
+
+theorem dts_small (n : Nat) (hn : n < 256) : dts n = 0 := by
+  unfold dts partsAsDuration seconds fractional; omega
+
+theorem before_dts (F : Nat) (hF : F % 4 = 0) (g : OrSwot) (S : Nat → Prop) (hv : VersInv F g S)
+    (hS : ∀ m, S m → m < 18446744073709551616) (t : Nat) (ht : ValidStamp t)
+    (hb : isBefore g.safe t = true) : (∃ m, S m ∧ dts t + F ≤ dts m) ∨ dts t + F ≤ 0 := by
+  unfold isBefore at hb
+  cases hg : Map.get g.safe (node t) with
+  | none => rw [hg] at hb; cases hb
+  | some v =>
+    rw [hg] at hb
+    simp only [decide_eq_true_eq] at hb
+    obtain ⟨m, hm1, hm2, hm3⟩ := hv.safe _ _ hg
+    rw [hm3] at hb
+    rcases hm1 with hm1 | hm1
+    · left
+      refine ⟨m, hm1, ?_⟩
+      have := not_lt_forgive F t m hF ht (hS m hm1)
+      by_cases hc : dts m < dts t + F
+      · exact absurd hb (this hc)
+      · omega
+    · right
+      have hn := node_lt t
+      have hp : pack 0 0 (node t) = node t := by unfold pack durSecs durFrac; omega
+      rw [hp] at hm1
+      have hmlt : m < 18446744073709551616 := by omega
+      have := not_lt_forgive F t m hF ht hmlt
+      have hd0 : dts m = 0 := by rw [hm1]; exact dts_small _ hn
+      by_cases hc : dts m < dts t + F
+      · exact absurd hb (this hc)
+      · omega
+
+theorem rank_dead (o : Op) (d : Nat) (h : rank o = deadRec d) : o.isDel = true ∧ o.ts = d := by
+  unfold rank deadRec liveRec at h
+  cases hd : o.isDel with
+  | true => rw [hd] at h; simp at h; exact ⟨rfl, by omega⟩
+  | false => rw [hd] at h; simp at h; omega
+
+/-! ### The invariant of one purging replica -/
+
+/-- The purging replica `s`, having applied `A`, is simulated by a never-purging ghost that
+represents `A`; everything applied belongs to the history and is not from the future (`B`). -/
+structure NInv (F B : Nat) (H : List Op) (s : OrSwot) (A : List Op) : Prop where
+  ex : ∃ g, Rep F g A ∧ Sim F B s g
+  sub : ∀ o ∈ A, o ∈ H ∧ dts o.ts ≤ B
+
+/-- Timeliness, seen from one replica at one moment: every operation of the history that is at
+least one forgiveness period older than the bound has been applied here. -/
+def Timely (F B : Nat) (H A : List Op) : Prop := ∀ o ∈ H, dts o.ts + F ≤ B → o ∈ A
+
+/-- No delete of the history on `o`'s key that is old enough to have been purged is newer than
+`o`. -/
+def Fresh (F B : Nat) (H : List Op) (o : Op) : Prop :=
+  ∀ od ∈ H, od.key = o.key → od.isDel = true → dts od.ts + F ≤ B → od.ts ≤ o.ts
+
+theorem ninv_mono (F B B' : Nat) (H : List Op) (s : OrSwot) (A : List Op) (h : NInv F B H s A)
+    (hb : B ≤ B') : NInv F B' H s A := by
+  obtain ⟨⟨g, hr, hs⟩, hsub⟩ := h
+  exact ⟨⟨g, hr, sim_mono F B B' s g hs hb⟩, fun o ho => ⟨(hsub o ho).1, by have := (hsub o ho).2; omega⟩⟩
+
+theorem ninv_empty (F B n : Nat) (H : List Op) : NInv F B H (OrSwot.empty n) [] :=
+  ⟨⟨OrSwot.empty n, rep_empty F n, sim_refl F B _⟩, fun _ h => by cases h⟩
+
+theorem stamps_lt (H A : List Op) (hg : GoodHist H) (hsub : ∀ o ∈ A, o ∈ H) :
+    ∀ m, Stamps A m → m < 18446744073709551616 := by
+  rintro m ⟨o, ho, rfl⟩
+  exact (hg.valid o (hsub o ho)).1
+
+/-- A timely replica is sound: what its ghost refuses as too old has been applied. -/
+theorem sound_of_timely (F B : Nat) (hF : F % 4 = 0) (H : List Op) (hg : GoodHist H) (g : OrSwot)
+    (A : List Op) (hr : Rep F g A) (hsub : ∀ o ∈ A, o ∈ H ∧ dts o.ts ≤ B) (ht : Timely F B H A) :
+    Sound g A H := by
+  intro o ho hb
+  rcases before_dts F hF g (Stamps A) hr.vers (stamps_lt H A hg (fun o h => (hsub o h).1)) o.ts
+    (hg.valid o ho) hb with ⟨m, ⟨o', ho', hm⟩, hle⟩ | hle
+  · apply ht o ho
+    have := (hsub o' ho').2
+    rw [hm] at this; omega
+  · apply ht o ho; omega
+
+/-- The ghost's tombstone of a key the replica holds nothing for is a delete of the history. -/
+theorem ghost_tombstone_is_op (F : Nat) (g : OrSwot) (A : List Op) (hr : Rep F g A) (k d : Nat)
+    (hd : Map.get g.dead k = some d) : ∃ od ∈ A, od.key = k ∧ od.isDel = true ∧ od.ts = d := by
+  have he : Map.get g.entries k = none := by
+    rcases hr.disj k with h | h
+    · exact h
+    · rw [hd] at h; cases h
+  have hv : view g k = some (deadRec d) := by unfold view; rw [he, hd]
+  rw [hr.view] at hv
+  obtain ⟨od, hod, hk, hrk⟩ := lww_mem A k _ hv
+  obtain ⟨h1, h2⟩ := rank_dead od d hrk
+  exact ⟨od, hod, hk, h1, h2⟩
+
+/-- **One delivered operation** keeps the invariant. -/
+theorem ninv_apply (F B : Nat) (hF : F % 4 = 0) (H : List Op) (hg : GoodHist H) (s : OrSwot)
+    (A : List Op) (h : NInv F B H s A) (ht : Timely F B H A) (src : Nat) (o : Op) (hoH : o ∈ H)
+    (hoB : dts o.ts ≤ B) (hfresh : Fresh F B H o) :
+    NInv F B H (applyOp F s ⟨src, o⟩).1 (o :: A) := by
+  obtain ⟨⟨g, hr, hs⟩, hsub⟩ := h
+  have hsound := sound_of_timely F B hF H hg g A hr hsub ht
+  refine ⟨⟨(applyOp F g ⟨src, o⟩).1, applyOp_rep F g A H ⟨src, o⟩ hr hsound hoH, ?_⟩, ?_⟩
+  · apply sim_applyOp F B s g ⟨src, o⟩ hs
+    intro d hd hsn
+    rcases hs.dead o.key with h1 | ⟨_, _, d', h3, h4⟩
+    · rw [hd, hsn] at h1; cases h1
+    · rw [hd] at h3; cases h3
+      obtain ⟨od, hod, hk, hdel, hts⟩ := ghost_tombstone_is_op F g A hr o.key d hd
+      have := hfresh od (hsub od hod).1 hk hdel (by rw [hts]; exact h4)
+      rw [hts] at this
+      exact this
+  · intro o' ho'
+    rcases List.mem_cons.1 ho' with h | h
+    · subst h; exact ⟨hoH, hoB⟩
+    · exact hsub o' h
+
+/-- **A purge** keeps the invariant, with the same ghost and the same applied operations. -/
+theorem ninv_purge (F B : Nat) (hF : F % 4 = 0) (H : List Op) (hg : GoodHist H) (s : OrSwot)
+    (A : List Op) (h : NInv F B H s A) : NInv F B H (purgeOldDeletes s).1 A := by
+  obtain ⟨⟨g, hr, hs⟩, hsub⟩ := h
+  refine ⟨⟨g, hr, sim_purge F B s g hs hr.disj ?_⟩, hsub⟩
+  intro k d hd hb
+  have hgd : Map.get g.dead k = some d := by
+    rcases hs.dead k with h1 | ⟨h1, _⟩
+    · rw [h1, hd]
+    · rw [hd] at h1; cases h1
+  obtain ⟨od, hod, _, _, hts⟩ := ghost_tombstone_is_op F g A hr k d hgd
+  have hval := hg.valid od (hsub od hod).1
+  rw [hts] at hval
+  rw [← hs.safe] at hb
+  rcases before_dts F hF g (Stamps A) hr.vers (stamps_lt H A hg (fun o h => (hsub o h).1)) d hval hb
+    with ⟨m, ⟨o', ho', hm⟩, hle⟩ | hle
+  · have := (hsub o' ho').2
+    rw [hm] at this; omega
+  · omega
+
+/-- What a purging replica shows as live is what its ghost shows. -/
+theorem ninv_get (F B : Nat) (H : List Op) (s : OrSwot) (A : List Op) (h : NInv F B H s A) (k : Nat) :
+    ∃ g, Rep F g A ∧ OrSwot.get s k = OrSwot.get g k := by
+  obtain ⟨⟨g, hr, hs⟩, _⟩ := h
+  exact ⟨g, hr, (hs.entries k).symm⟩
+
 end Datacake.Purge
